@@ -192,3 +192,19 @@ prop("C18",
                 "function: ('' and None namespaces with one local name tie -- recorded in DESIGN.md).",
      not_decided=["attribute maps with more than three entries (argued from library contracts)"],
      explanation="key function under contract; loop body bounded")
+
+
+prop("C15",
+     level="proof",
+     level_text="Ground (exhaustive, all 0x110000 code points): the encoder's error handler writes every character the encoding "
+                "cannot express as a ';'-terminated reference that decodes back to it (shared with C14; known finding for "
+                "NUL/CR/C1/surrogates). The inject_meta_charset filter's loop body is explored symbolically for an arbitrary "
+                "filter state and token within a bound (queue of <= 2 held tokens, <= 2 attributes): every token is passed on "
+                "once and in order, the synthetic <meta charset> is inserted exactly when head ends (or <head/> is expanded) "
+                "without a declaration, and only charset= / http-equiv content= values of meta tags are rewritten, to the "
+                "output encoding -- reported as bounded stand-in, not counted as proved.",
+     level_note="Trusted: pyvc, z3, CPython codecs. The consumer side (the bytes, parsed with no hints, are decoded with the "
+                "declared encoding and give the same tree) needs C06's prescan and C01/C05 and is not decided; encodings that "
+                "emit a BOM per piece (utf-16) are a known finding.",
+     not_decided=["decode side: prescan finds the declaration; same tree (C06/C01)", "serialize() prologue (filter applied iff encoding and inject_meta_charset)"],
+     explanation="encode handler ground-checked on every code point; filter loop body bounded")
